@@ -36,6 +36,12 @@ MUTANTS = [
      '        else:\n            del _MODIFYING[root]\n\n\n@pyver(lt=12)  # override _Modifying if py too low',
      '        else:\n            pass\n\n\n@pyver(lt=12)  # override _Modifying if py too low',
      ['C12']),
+    ('M04-walk-ignores-removal-of-yielded-node', 'fst_traverse.py',
+     '                if not (ast := fst_.a):  # has been deleted by the player (if replaced then this FST node will still exist but the .a will have changed)\n                    continue\n',
+     '                ast = fst_.a or ast\n', ['C15']),
+    ('M05-reconcile-does-not-retry-after-NodeError', 'reconcile.py',
+     '        except (NodeError, SyntaxError, ValueError, NotImplementedError):  # something failed below, so replace whole AST',
+     '        except (SyntaxError, NotImplementedError):  # something failed below, so replace whole AST', ['C13']),
 ]
 
 
